@@ -118,11 +118,13 @@ impl<'a> Ck<'a> {
 
 /// Protected headers to swap in as perturbation: every palette header whose encoding differs.
 fn other_protected(current: &ProtectedHeader) -> Vec<ProtectedHeader> {
-    let cur = super::crypto::protected_bytes_of(current);
+    // "different" is decided on the header *content* (different contents have different encodings),
+    // never on the subject's own encoding of it
+    let cur = format!("{:?}", current.header);
     msgbuild::headers()
         .iter()
         .map(|h| ProtectedHeader { original_data: None, header: subject::c_header(h).unwrap() })
-        .filter(|p| super::crypto::protected_bytes_of(p) != cur)
+        .filter(|p| format!("{:?}", p.header) != cur)
         .collect()
 }
 
